@@ -9,7 +9,8 @@ TRUSTED_BASE = [
     'by the driver and compared bit for bit with CPython executing the real code string / documented text)',
     'hand-written model lean/PysphVerif/Model/Codegen.lean (sort_precomputed, _setup_precomputed, MegaGroup '
     'data, pointer set-up, declarations, scratch vectors, call sites of the group callables) and Model/CodegenOpts.lean '
-    '(destination loop limits from start_idx / stop_idx / real, attribute declarations of the equation wrapper classes), '
+    '(destination loop limits from start_idx / stop_idx / real, attribute declarations of the equation wrapper classes) '
+    'and Model/CodegenIter.lean (break test and loop of iterated groups, ParticleArrayWrapper.set_array / update_particle_arrays), '
     'tied to the code by comparing with the real functions and with the parsed generated source of random programs',
     'compyle transpiler, Cython, g++, libm, cyarray: outside the repository and outside any model; for arbitrary '
     'user equations the statement is carried by differential execution (testing), labelled as such',
@@ -29,7 +30,7 @@ READY = True
 DESIGN_REF = '6/C02'
 TECHNIQUE = ('Lean 4 proof over a table regenerated from equation.py/equations.rst and a hand-written model of the '
              'generator bookkeeping + generated-source validation + differential execution of compiled programs')
-LEVEL_TEXT = ("Lean 4 theorems (36) over (i) the precomputed-symbol table regenerated on every run from "
+LEVEL_TEXT = ("Lean 4 theorems (43) over (i) the precomputed-symbol table regenerated on every run from "
               "equation.py::precomputed_symbols() and docs/source/design/equations.rst (precomp_code_eq_doc/_conv, "
               "precomp_matches_doc in every number system, symbols_table_consistent, precomp_table_acyclic) and (ii) a "
               "hand-written model of sort_precomputed, Group._setup_precomputed, MegaGroup._make_data and the pointer / "
@@ -42,14 +43,25 @@ LEVEL_TEXT = ("Lean 4 theorems (36) over (i) the precomputed-symbol table regene
               "property/constant, None), real flag and run-time state the loops of a destination block visit exactly the documented "
               "range(start, stop), with the counterexample falsy_stop_runs_everything for a generator that tests the truth value of stop_idx; "
               "wrapper_decl_holds_every_instance / wrapper_policies_agree_when_uniform / last_instance_policy_truncates / class_name_cache_goes_stale: "
-              "the C type declared for a numeric instance attribute holds the value of every instance re-created through the class). The model is tied to the code on every "
+              "the C type declared for a numeric instance attribute holds the value of every instance re-created through the class; "
+              "break_test_polls_every_equation / break_test_iff_each_converged / iterated_group_sweeps_documented: the break test of an iterated group asks "
+              "every equation object of the group, sub-groups included, whichever class of its hierarchy defines converged(), and the generated loop makes "
+              "exactly the documented number of sweeps for all min_iterations <= max_iterations, 1 <= max_iterations and all behaviours of the equations, with the "
+              "counterexample own_dict_polling_stops_early for a generator that polls by the class __dict__; rebind_binds_props_and_consts / "
+              "rebind_history_leaves_nothing_stale: after any history of update_particle_arrays every property AND constant attribute of an array wrapper refers "
+              "into the last array passed, with the counterexample consts_bound_once_go_stale). The model is tied to the code on every "
               "run by translator validation (bit-exact), by the real sort/set-up functions on random tables, and by parsing "
               "AccelerationEvalCythonHelper.get_code() of random programs (groups, one level of sub-groups, condition/pre/post, "
               "explicit names: unique or shared by several groups; start_idx / stop_idx at boundary values; int / bool / float "
-              "attributes with per-instance values), also of programs built one after the other in ONE process whose class / array / group names "
+              "attributes with per-instance values; generated class hierarchies: subclasses overriding some methods and inheriting the rest, reduce / converged "
+              "hooks, Group(iterate=True, min_iterations=, max_iterations=) on groups of equations and parents of sub-groups -- the break test of every iterated group is "
+              "parsed and compared), also of programs built one after the other in ONE process whose class / array / group names "
               "collide (sessions; the source of each member must be the one a fresh process generates); the property's own predicate (values after "
               "AccelerationEval.compute equal a pure-Python execution along the documented order with the documented "
-              "formulas and the Python kernel classes) is evaluated by differential execution of compiled programs.")
+              "formulas and the Python kernel classes) is evaluated by differential execution of compiled programs, each followed by a HISTORY on the same evaluator: "
+              "compute again, update_particle_arrays with new ParticleArray objects (other data, other values of the constants) and compute -- every property and constant of the "
+              "arrays being evaluated AND of the arrays replaced must equal the Python execution of the same history; the wrapper attributes are compared by identity with the carrays "
+              "of the array passed (tied to the binding model).")
 LEVEL_NOTE = ("proof for table / order / closure / wiring; for what transpiled user code computes (compyle, Cython, g++, "
               "libm: outside the repository and outside any model) the statement is carried by differential execution, "
               "which is testing: quick = 17 compiled single programs (4 corpus programs: source/destination wiring, groups and sub-groups "
@@ -60,6 +72,8 @@ LEVEL_NOTE = ("proof for table / order / closure / wiring; for what transpiled u
               "each member evaluated against the Python executor, a failing member re-run alone to tell a history failure) "
               "+ 18 uncompiled sessions, thorough = all curated and discovered scalar-property shipped equations x dims. "
               "WDP/GH*/WDASH* are checked against the naming convention because equations.rst does not list them. "
-              "OpenMP, GPU back ends, iterated groups (C03), strided shipped equations and Python-level hooks (py_initialize/reduce/converged: "
-              "C03) are not exercised.")
+              "Every generated compiled program carries a history (compute again / update_particle_arrays + compute); a third of them class hierarchies with "
+              "inherited reduce / converged and iterated groups (sweep count decided by an inherited converged(), cut by min_/max_iterations). "
+              "OpenMP, GPU back ends, iterate=True on SUB-groups (the Cython template ignores it), the group's own pre/post of an iterated group (the documentation does not say "
+              "whether they belong to a sweep), strided shipped equations and py_initialize hooks of generated classes are not exercised.")
 TIMEOUT = {'quick': 1500, 'thorough': 3 * 3600}
